@@ -28,6 +28,13 @@ What is modelled in Lean and what is recorded (see props_registry.d/C09.json tru
     lines.  As in eng_sched, the queue each `_find_placements` call receives, the values
     `IdentityGroup.acquire` popped and the order of `Cell.schedule()`'s placement list are recorded
     and passed to the model.
+  * DERIVED, tied per call (TmVerif.LoaderOps, `fops <handler> ...` lines): the CALL LISTS of load_server, remove_server,
+    reload_server, adjust_server_state, set_server_valid_until, adjust_presence, load_app, load_identity_groups and the
+    flags _handle_apps_blacklist_event leaves.  The handler is wrapped, its inputs are captured at the call boundary
+    (stored records as the real backend returns them, loader tables before the call), it runs, and the lines recorded
+    while it ran (calls into the cell, writes to modelled paths, modelled sub-operations) are the expected output of a
+    stateless driver line that derives the list from the inputs.  Counted per handler in the tags `fops:<handler>`.
+    Still only recorded: load_allocations, load_buckets / load_cell, load_partitions, the state event / freeze.
 After every modelled operation and after every event the model's output (storage writes of the
 operation, full cell dump, full store dump) is compared with the real objects.
 
